@@ -22,6 +22,7 @@ case = (op, data, layout, seed, params, streams, exps, logs, tag)
   exps / logs = the graph of math.exp / math.log on the arguments the code evaluated them on.
 The implementation side replays the streams through the real code; the model consumes the same streams."""
 import collections
+import itertools
 import math
 import random as _random
 import sys
@@ -106,8 +107,9 @@ class MathTap:
 
 PARENTS = ['list', 'gen', 'range', 'mp_sorted', 'mp_list', 'mp_lambda_list', 'mpi_list', 'glom_flatmap', 'union',
            'coalesce', 'zip', 'cartesian', 'cached', 'map', 'cached_mp_list', 'mp_tuple', 'filter_true', 'flaky',
-           'filter_head', 'filter_sparse', 'flatmap_expand_one', 'union_uneven', 'filter_tail', 'filter_one']
-UNEVEN = ['filter_head', 'filter_sparse', 'flatmap_expand_one', 'union_uneven', 'filter_tail', 'filter_one']
+           'filter_head', 'filter_sparse', 'flatmap_expand_one', 'union_uneven', 'filter_tail', 'filter_one', 'mpi_uneven', 'mpi_last_only']
+UNEVEN = ['filter_head', 'filter_sparse', 'flatmap_expand_one', 'union_uneven', 'filter_tail', 'filter_one', 'mpi_uneven',
+          'mpi_last_only']
 FLAKY = PARENTS.index('flaky')
 
 
@@ -170,11 +172,18 @@ def build(sc, data, layout):
                 'filter_sparse': lambda i: i % 7 == 3,                  # most partitions empty
                 'filter_tail': lambda i: i >= n - max(1, n // 4),       # only the last partition(s)
                 'filter_one': lambda i: i == n // 2}[name]
-        return base.zipWithIndex().filter(lambda xi: keep(xi[1])).map(lambda xi: xi[0])
+        # (zipWithIndex would collapse the dataset into one partition)
+        return sc.parallelize([(x, i) for i, x in enumerate(data)], nsl).filter(lambda xi: keep(xi[1])).map(lambda xi: xi[0])
     if name == 'flatmap_expand_one':
-        return base.zipWithIndex().flatMap(lambda xi: [xi[0]] * 6 if xi[1] == 0 else ([xi[0]] if xi[1] % 5 == 0 else []))
+        return sc.parallelize([(x, i) for i, x in enumerate(data)], nsl).flatMap(
+            lambda xi: [xi[0]] * 6 if xi[1] == 0 else ([xi[0]] if xi[1] % 5 == 0 else []))
     if name == 'union_uneven':
         return sc.parallelize(data[:1], 1).union(sc.parallelize(data[1:], max(1, nsl)))
+    if name == 'mpi_uneven':
+        # partition i keeps its first max(0, 4 - 3 * i) elements: 4 + 1 + 0 + ...
+        return base.mapPartitionsWithIndex(lambda i, it: itertools.islice(it, max(0, 4 - 3 * i)))
+    if name == 'mpi_last_only':
+        return base.mapPartitionsWithIndex(lambda i, it: it if i == nsl - 1 else iter(()))
     raise ValueError(name)
 
 
@@ -297,6 +306,7 @@ class LazyScript(dict):
 
 
 GEN_TIMEOUTS = collections.Counter()
+UNEVEN_SHAPES = {}
 GEN_SLOW = collections.Counter()
 SLOW_CALL = 1.0          # seconds; a run on these tiny inputs takes well under a millisecond on the unchanged tree
 
@@ -495,6 +505,10 @@ def _eq(a, b):
 OPS = ['sample', 'sampleByKey', 'takeSample', 'randomSplit', 'sampleViews']
 
 
+def extra_evidence():
+    return {'uneven_parent_partition_sizes': dict(UNEVEN_SHAPES)}
+
+
 def kind(case):
     op, params, tag = case[0], case[4], case[8]
     extra = ''
@@ -690,6 +704,7 @@ def generate(rng, tier):
             if lay is None:
                 continue
             size = sum(len(p) for p in lay[2])
+            UNEVEN_SHAPES[name] = [len(p) for p in lay[2]]
             for num in range(0, size + 4):
                 for wr in (False, True):
                     for seed in ((0, rng.randint(1, 50)) if quick else (0, 1, 2, 3, rng.randint(4, 10 ** 6), None)):
